@@ -223,10 +223,12 @@ def _message_id(soap_message):
 
 
 class Rig:
-    def __init__(self, ctx, mdib_file, n_consumers=1, sync_dispatch=True, harness_kinds=None):
+    def __init__(self, ctx, mdib_file, n_consumers=1, sync_dispatch=True, harness_kinds=None, async_mgr=False, worker_first=False):
         self.ctx = ctx
         self.mdib_file = mdib_file
-        self.world = World(mdib_file, role_provider='no_waveform')
+        self.world = World(mdib_file, role_provider='no_waveform', async_mgr=async_mgr)
+        if async_mgr:
+            ctx.count('rig.async_subscription_manager')
         self.prov = self.world.provider
         self.mdib = self.world.mdib
         self.tap = Tap(self.world)
@@ -248,6 +250,7 @@ class Rig:
             if reg._worker is not None:
                 q = reg._worker._operations_queue
                 q.__class__ = im.MonitoredQueue
+                q.vf_worker_first = bool(worker_first)
                 self.queues[sco_handle] = q
         self.tutorial_ops = []  # specs
         self.harness_ops = {}  # (kind, outcome, mode) -> spec
@@ -470,6 +473,10 @@ class Rig:
     def stop(self):
         for g in self.gates.values():
             g.set()
+        for q in self.queues.values():
+            self.ctx.count('sched.worker_first_puts', q.vf_worker_first_waits)
+            if q.vf_worker_first_timeouts:
+                self.ctx.not_decided(f'worker-first schedule: {q.vf_worker_first_timeouts} enqueuing thread(s) gave up waiting for the worker (hang guard)')
         self.world.stop()
 
     # -- wire evaluation ------------------------------------------------------------------------------------------
@@ -544,9 +551,12 @@ class Rig:
                 for p in m['parts']:
                     by_tx[p['txid']][netloc].append(p)
         resp_by_tx = {r['resp']['txid']: r for r in ok}
+        faulted = [r for r in requests if r['resp'].get('fault')]
+        ctx.count('wire.faulted_requests_judged', len(faulted))
         for txid in by_tx:
             if txid not in resp_by_tx:
                 ctx.count('obs.report_for_transaction_without_response')
+                self._judge_unanswered(txid, by_tx[txid], faulted, where)
         result = {}
         for r in ok:
             txid = r['resp']['txid']
@@ -599,6 +609,41 @@ class Rig:
             if r['resp'].get('fault'):
                 ctx.count(f'obs.fault_no_states.{r["req"]["kind"]}.http{r["status"]}')
         return result, reports, requests
+
+    def _judge_unanswered(self, txid, views, faulted, where):
+        """states reported for a transaction id that no Set response of this window announced.  Every window is closed at a quiescent
+        point, so either the id belongs to a transaction that was completely evaluated earlier (nothing may be reported for it any
+        more), or its request was answered with a fault / not at all: then whatever IS reported for it must still be a legal sequence
+        (the statement's 'Wait, Start, one final state' or one final state) - 'fault, no states' is the legal normal case and does not
+        come here at all."""
+        ctx = self.ctx
+        detail = {'where': where, 'txid': txid, 'mdib_file': self.mdib_file,
+                  'faulted_requests_in_this_window': [r['req'] for r in faulted][:5], 'n_faulted': len(faulted)}
+        if txid in self.seen_ids and self.seen_ids[txid].get('req') is not None:
+            ctx.count('unanswered.late_reports')
+            self.witness('automaton.late_report', 'a report for a transaction whose processing had finished before (response and all reports '
+                         'were evaluated at an earlier quiescent point)',
+                         {**detail, 'states': {n: [p['state'] for p in parts] for n, parts in views.items()}, 'request': self.seen_ids[txid]['req']})
+            return
+        emitted = set()
+        for netloc, parts in views.items():
+            states = [p['state'] for p in parts]
+            ctx.count('unanswered.sequences_judged')
+            ctx.count(f'unanswered.shape.{"-".join(str(s) for s in states)}')
+            if len(states) == 1 and states[0] in im.FINAL:
+                problems = []  # directly one final state
+            else:
+                problems = im.check_sequence('Wait', states, True)
+            if not problems:
+                ctx.count('obs.unanswered_transaction_with_complete_sequence')
+            for suffix, text in problems:
+                key = f'automaton.{suffix}.unanswered'
+                if (key, text) in emitted:
+                    continue
+                emitted.add((key, text))
+                self.witness(key, 'states were reported for a transaction id that no Set response announced (request answered with a fault), '
+                             'and they are not a legal sequence: ' + text, {**detail, 'report_states': states, 'subscriber': netloc})
+        self.seen_ids.setdefault(txid, {'req': None, 'thread': None, 'reports_only': True})
 
     def evaluate_futures(self, wire_result, reports, where='live'):
         """consumer-side monitors for the live part (exact delivery order unknown: interleaving keeps W,S,F order)."""
@@ -690,7 +735,10 @@ def _all_specs(rig, modes=('queued', 'direct')):
 
 def w_live_sequential(ctx: core.Ctx, arg):
     """every operation kind / handler outcome / mode once or more, one consumer, one request at a time."""
-    rig = Rig(ctx, arg['mdib_file'], n_consumers=arg.get('n_consumers', 2), sync_dispatch=arg.get('sync', True))
+    rig = Rig(ctx, arg['mdib_file'], n_consumers=arg.get('n_consumers', 2), sync_dispatch=arg.get('sync', True),
+              async_mgr=bool(arg.get('async_mgr')), worker_first=bool(arg.get('worker_first')))
+    sched_tag = ('worker_first' if arg.get('worker_first') else 'http_first', 'async_mgr' if arg.get('async_mgr') else 'sync_mgr',
+                 'sync_disp' if arg.get('sync', True) else 'deferred_disp')
     try:
         n = itertools.count()
         # unknown operation handles, every request kind; MDIB must stay as it is.  Done first: once a tutorial operation with an
@@ -703,6 +751,10 @@ def w_live_sequential(ctx: core.Ctx, arg):
             spec = dict(base, op=f'vf.no.such.operation.{kind[0]}', outcome='unknown', origin='unknown')
             rig.issue(0, spec, next(n))
             ctx.case(('live.unknown_op', arg['mdib_file'], kind[0]))
+            # a handle that exists in the MDIB, but is not an operation (the target of the request kind)
+            rig.issue(0, dict(spec, op=base['target']), next(n))
+            ctx.count('unknown_op.existing_non_operation_handle')
+            ctx.case(('live.unknown_op.non_operation_handle', arg['mdib_file'], kind[0]))
         rig.quiesce()
         diff = snap_equal(before, snap(rig.mdib))
         ctx.count('unknown_op.snapshots_compared')
@@ -721,7 +773,9 @@ def w_live_sequential(ctx: core.Ctx, arg):
                     for variant in variants:
                         ci = next(n) % len(rig.consumers)
                         rig.issue(ci, spec, next(n), variant)
-                        ctx.case(('live.seq', arg['mdib_file'], spec['kind'], spec['outcome'], spec['mode'], spec['origin'], variant))
+                        ctx.case(('live.seq', arg['mdib_file'], spec['kind'], spec['outcome'], spec['mode'], spec['origin'], variant, sched_tag))
+                        if arg.get('worker_first') and spec['mode'] == 'queued':
+                            ctx.count('live.queued_requests_worker_first')
                         ctx.count(f'live.requests.{spec["mode"]}.{spec["kind"]}.{spec["outcome"]}')
                 rig.quiesce()
                 result, reports, _ = rig.evaluate_wire(where='live.seq')
@@ -770,7 +824,8 @@ def w_live_concurrent(ctx: core.Ctx, arg):
     """1-4 consumers, one thread each, random operations (both modes, all outcomes) concurrently."""
     rng = ctx.rng('conc', arg['i'])
     old_switch = sys.getswitchinterval()
-    rig = Rig(ctx, arg['mdib_file'], n_consumers=arg['n_consumers'], sync_dispatch=arg.get('sync', True))
+    rig = Rig(ctx, arg['mdib_file'], n_consumers=arg['n_consumers'], sync_dispatch=arg.get('sync', True),
+              async_mgr=bool(arg.get('async_mgr')), worker_first=bool(arg.get('worker_first')))
     uninstall = None
     try:
         if arg.get('yield_injection'):
@@ -808,7 +863,7 @@ def w_live_concurrent(ctx: core.Ctx, arg):
             for plan in plans:
                 for spec, _n in plan:
                     ctx.case(('live.conc', arg['n_consumers'], spec['kind'], spec['outcome'], spec['mode'], bool(arg.get('yield_injection')),
-                              bool(arg.get('yield_collector'))))
+                              bool(arg.get('yield_collector')), bool(arg.get('worker_first')), bool(arg.get('async_mgr'))))
             if rig.poisoned:
                 break  # subscriptions are flagged, transactions dropped: this rig says nothing more
     except Watchdog as ex:
@@ -840,26 +895,67 @@ def _install_yield(code, ctx):
 
 
 def w_live_burst(ctx: core.Ctx, arg):
-    """bursts against a blocked worker: queue of 10 fills, further requests fail with a SOAP fault after an id was consumed."""
-    rig = Rig(ctx, arg['mdib_file'], n_consumers=arg['n_consumers'], sync_dispatch=True, harness_kinds=['SetString', 'Activate'])
+    """bursts against a blocked worker: queue of 10 fills, further requests fail with a SOAP fault after an id was consumed.
+
+    gate = 'harness': the blocked operation is the harness' vf.blocked; gate = 'tutorial': an operation of the tutorial role providers
+    with its REAL handler behind a gate (possibly in another SCO - own worker, own queue - than the harness operations).
+    Every request of a burst is judged: answered ones by the automaton, the ones answered with a fault by ``_judge_unanswered``
+    (nothing, or a legal sequence, may be reported for their ids)."""
+    mixed = bool(arg.get('mixed'))
+    kinds = ['SetString', 'Activate'] + (['SetValue', 'SetContextState', 'SetAlertState'] if mixed else [])
+    rig = Rig(ctx, arg['mdib_file'], n_consumers=arg['n_consumers'], sync_dispatch=arg.get('sync', True), harness_kinds=kinds,
+              async_mgr=bool(arg.get('async_mgr')))
+    rng = ctx.rng('burst', arg.get('i', 0))
     try:
-        q = rig.queues[rig.harness_sco]
-        q.vf_fast_full = not arg.get('real_timeout')
+        for q in rig.queues.values():
+            q.vf_fast_full = not arg.get('real_timeout')
+        gate_key = 'vf.blocked'
+        blocked_spec = rig.blocked_spec
+        if arg.get('gate') == 'tutorial':
+            rig.set_tutorial_mode('queued')
+            cands = sorted((s for s in rig.tutorial_ops if s['kind'] in ('SetString', 'SetValue', 'Activate')), key=lambda s: s['op'])
+            blocked_spec = cands[arg.get('gate_op', 0) % len(cands)]
+            gate_key = blocked_spec['op']
+            op = rig.prov.get_operation_by_handle(gate_key)
+            inner = op._operation_handler  # noqa: SLF001  (the recording wrapper around the real tutorial handler)
+
+            def gated(params, _inner=inner, _key=gate_key):
+                rig.entered[_key] += 1
+                if not rig.gates.setdefault(_key, threading.Event()).wait(WATCHDOG_S):
+                    ctx.not_decided('gated tutorial handler: gate never opened (watchdog)')
+                return _inner(params)
+            op._operation_handler = gated  # noqa: SLF001
+            ctx.count('burst.gated_tutorial_operation')
+        gate_sco = next(h for h, reg in rig.prov._sco_operations_registries.items() if gate_key in reg._registered_operations)  # noqa: SLF001
+        q = rig.queues[gate_sco]
+        same_sco_tutorial = [s for s in rig.tutorial_ops
+                             if s['op'] in rig.prov._sco_operations_registries[gate_sco]._registered_operations]  # noqa: SLF001
+        full0 = 0
         for burst in arg['bursts']:
-            gate = rig.gates.setdefault('vf.blocked', threading.Event())
+            if burst == 'random':
+                burst = rng.randrange(8, 31)
+            gate = rig.gates.setdefault(gate_key, threading.Event())
             gate.clear()
-            entered0 = rig.entered['vf.blocked']
-            rig.issue(0, rig.blocked_spec, 0)
+            entered0 = rig.entered[gate_key]
+            rig.issue(0, blocked_spec, 0)
             t_end = time.time() + WATCHDOG_S
-            while rig.entered['vf.blocked'] == entered0:  # the worker is now inside the blocked handler
+            while rig.entered[gate_key] == entered0:  # the worker is now inside the blocked handler
                 if time.time() > t_end:
                     raise Watchdog('blocked handler never entered')
                 time.sleep(0.0005)
-            specs = [rig.harness_ops[('SetString', o, 'queued')] for o in ('ok', 'raise', 'fail', 'finmod')]
-            specs += [rig.harness_ops[('Activate', 'ok', 'direct')], rig.harness_ops[('Activate', 'raise', 'direct')]]
+            if arg.get('gate') == 'tutorial':
+                specs = [blocked_spec] + ([s for s in same_sco_tutorial if s['op'] != gate_key] if mixed else [])
+            else:
+                specs = [rig.harness_ops[('SetString', o, 'queued')] for o in ('ok', 'raise', 'fail', 'finmod')]
+                if mixed:
+                    specs += [rig.harness_ops[k] for k in (('SetValue', 'ok', 'queued'), ('SetContextState', 'raise', 'queued'),
+                                                           ('SetAlertState', 'cnclld', 'queued'), ('SetContextState', 'ok', 'queued'))
+                              if k in rig.harness_ops]
+            if mixed or arg.get('gate') != 'tutorial':
+                specs += [rig.harness_ops[('Activate', 'ok', 'direct')], rig.harness_ops[('Activate', 'raise', 'direct')]]
             per = [[] for _ in rig.consumers]
             for k in range(burst):
-                per[k % len(per)].append((specs[k % len(specs)] if arg.get('mixed') else specs[0], k))
+                per[k % len(per)].append((specs[k % len(specs)] if mixed else specs[0], k))
 
             def body(ci, plan):
                 for spec, n in plan:
@@ -871,13 +967,30 @@ def w_live_burst(ctx: core.Ctx, arg):
                 t.join(WATCHDOG_S * 3)
                 if t.is_alive():
                     raise Watchdog('burst thread did not finish')
-            ctx.count('burst.queue_full_raised', q.vf_full_raised)
+            ctx.count('burst.queue_full_raised', q.vf_full_raised - full0)
+            full0 = q.vf_full_raised
+            if arg.get('unknown_while_blocked'):
+                # the worker sits in the blocked handler, its queue is (possibly) full, no other request is in flight: requests for unknown
+                # operation handles must fail at once and leave the MDIB alone
+                before = snap(rig.mdib)
+                for kind in ('SetString', 'Activate'):
+                    base = rig.harness_ops[(kind, 'ok', 'queued')]
+                    rig.issue(0, dict(base, op=f'vf.no.such.operation.{kind}', outcome='unknown', origin='unknown'), 1)
+                diff = snap_equal(before, snap(rig.mdib))
+                ctx.count('unknown_op.snapshots_compared')
+                ctx.count('unknown_op.while_worker_blocked', 2)
+                if diff:
+                    ctx.witness('unknown_op.mdib_changed.blocked_worker', 'requests for unknown operation handles (worker blocked, queue '
+                                'filled) changed the MDIB', {'diff': diff[:5]})
             gate.set()
             rig.quiesce()
             result, reports, requests = rig.evaluate_wire(where='live.burst')
-            ctx.count('burst.faults', sum(1 for r in requests if r['resp'].get('fault')))
+            n_faults = sum(1 for r in requests if r['resp'].get('fault'))
+            ctx.count('burst.faults', n_faults)
+            ctx.count('burst.overflowing' if n_faults else 'burst.not_overflowing')
             rig.evaluate_futures(result, reports, where='live')
-            ctx.case(('live.burst', burst, len(rig.consumers), bool(arg.get('mixed')), bool(arg.get('real_timeout'))))
+            ctx.case(('live.burst', min(burst, 12), len(rig.consumers), mixed, bool(arg.get('real_timeout')), arg.get('gate', 'harness'),
+                      bool(arg.get('sync', True)), bool(arg.get('async_mgr'))))
             ctx.count('burst.done')
             rig.flush_poison()
             if rig.poisoned:
